@@ -19,6 +19,7 @@ static const char* SIGMA1_HEX[] = {"00", "1818", "20", "41aa", "5f", "6161", "7f
                                    "c0", "d818", "f4", "f6", "f93c00", "ff", "1c", "f8", "9bffffffffffffffff", NULL};
 static const char* SIGMA2_HEX[] = {"00", "40", "60", "5f", "7f", "81", "82", "9f", "a1", "bf", "c0", "ff", NULL};
 static vf_tok T0[96], T1[32], T2[16];
+static unsigned char in_sigma1[96];
 vf_alphabet VF_SIGMA = {"Sigma", T0, 0};
 vf_alphabet VF_SIGMA1 = {"Sigma'", T1, 0};
 vf_alphabet VF_SIGMA2 = {"Sigma''", T2, 0};
@@ -31,6 +32,9 @@ void vf_enum_init(void) {
   VF_SIGMA.ntoks = fill(T0, SIGMA_HEX);
   VF_SIGMA1.ntoks = fill(T1, SIGMA1_HEX);
   VF_SIGMA2.ntoks = fill(T2, SIGMA2_HEX);
+  for (size_t i = 0; i < VF_SIGMA.ntoks; i++)
+    for (size_t j = 0; j < VF_SIGMA1.ntoks; j++)
+      if (T0[i].n == T1[j].n && !memcmp(T0[i].b, T1[j].b, T0[i].n)) in_sigma1[i] = 1;
 }
 
 uint64_t vf_dfs_units(const vf_alphabet* a) { return (uint64_t)a->ntoks * a->ntoks; }
@@ -54,16 +58,19 @@ static int classify(struct dfs* d, size_t ntok, rdecode* rd) {
   /* a truncated token cannot occur: tokens are complete heads; eager/lazy pairs count as rejected */
   return VD_REJECT;
 }
-static void rec(struct dfs* d, size_t ntok) {
+static void rec(struct dfs* d, size_t ntok, size_t lasttok) {
   rdecode rd;
   int st = classify(d, ntok, &rd);
+  /* at the depth bound, sequences that are still open are reported only when their last head is in Sigma' (they all end in the
+   * same verdict - need more data at the end - and differ only in which container was opened last) */
+  if (st == VD_INPROGRESS && ntok >= d->k && d->a == &VF_SIGMA && !in_sigma1[lasttok]) return;
   vf_seq s = {d->buf, d->off[ntok], ntok, d->off, st, &rd};
   d->fn(&s, d->ctx);
   if (st != VD_INPROGRESS || ntok >= d->k) return;
   for (size_t t = 0; t < d->a->ntoks; t++) {
     memcpy(d->buf + d->off[ntok], d->a->toks[t].b, d->a->toks[t].n);
     d->off[ntok + 1] = d->off[ntok] + d->a->toks[t].n;
-    rec(d, ntok + 1);
+    rec(d, ntok + 1, t);
   }
 }
 void vf_dfs_unit(const vf_alphabet* a, unsigned k, uint64_t unit, size_t L, uint64_t cap, vf_seq_fn fn, void* ctx) {
@@ -82,7 +89,7 @@ void vf_dfs_unit(const vf_alphabet* a, unsigned k, uint64_t unit, size_t L, uint
   if (st != VD_INPROGRESS || k < 2) return;
   memcpy(d.buf + d.off[1], a->toks[t2].b, a->toks[t2].n);
   d.off[2] = d.off[1] + a->toks[t2].n;
-  rec(&d, 2);
+  rec(&d, 2, t2);
 }
 
 uint64_t vf_bn_units(void) { return 65537; }
